@@ -29,6 +29,9 @@ def run(model, rep, tier):
     A(r2_nopc, model, rep)
     A(sysrules.c06_plumbing, model, rep)
     A(lambda: sysrules.object_state_rule(model, rep, sysrules.roles(model), "R4"))
+    A(lambda: sysrules.row_assembly(model, rep, sysrules.roles(model), "R3", ["Phase", "Power (W)", "Warnings", "24h energy (Wh)"]))
+    A(sysrules.phase_param_rule, model, rep)
+    A(sysrules.set_sys_phases_rule, model, rep, "R5")
 
 
 def r2_nopc(model, rep):
